@@ -302,6 +302,15 @@ class HGenSource(GenSource):
 
     def set_compound(self, w):
         op = super().set_compound(w)
+        if op is not None and op.get("path") is not None and getattr(w.objs[op["obj"]], "dressed", None) is not None:
+            # compound values that re-bind or null references of a dressed object through its raw
+            # _xobject go behind the dressing layer's back (like raw reference rebinding): not generated
+            try:
+                tt = M.node_at(w.schema, w.objs[op["obj"]].t, w.objs[op["obj"]].node, op["path"])[0] if op["path"] else w.objs[op["obj"]].t
+            except Exception:
+                tt = None
+            if tt is None or typegen.has_refs(w.schema, tt):
+                return None
         if op is not None and isinstance(op.get("value"), dict) and "obj" in op["value"]:
             o = w.objs[op["obj"]]
             if getattr(o, "dressed", None) is not None:
